@@ -900,6 +900,24 @@ theorem good_set_style {pre post : Sheet} {r : Rule} {x : List Sel} (hr : r.isNs
       · right; apply hx; have := usedUris_style x; simp only [usedUris] at this; rw [this] at hu; exact hu
       · left; right; rw [e2]; exact List.mem_append.mpr (Or.inr hu)
 
+/-- adding selectors resolved against the view to the @media rule at position `|pre|` -/
+theorem good_set_media {pre post : Sheet} {rs rs' : List (List Sel)} (h : Good (pre ++ .media rs :: post))
+    (hx : ∀ u ∈ usedUris [.media rs'], u ∈ nsUris (pre ++ .media rs :: post)) :
+    Good (pre ++ .media rs' :: post) := by
+  apply h.of_same_pairs
+  · simp [nsPairs_append, nsPairs]
+  · intro u hu
+    simp only [usedUris, collect_append, List.mem_append] at hu ⊢
+    rcases hu with hu | hu
+    · exact Or.inl (Or.inl hu)
+    · have e := usedUris_cons (.media rs') post
+      have e2 := usedUris_cons (.media rs) post
+      simp only [usedUris] at e e2
+      rw [e] at hu
+      rcases List.mem_append.mp hu with hu | hu
+      · right; exact hx u hu
+      · left; right; rw [e2]; exact List.mem_append.mpr (Or.inr hu)
+
 /-- inserting a rule that is not an @namespace rule anywhere -/
 theorem good_insert_body {s : Sheet} {r : Rule} (i : Nat) (hr : r.isNs = false) (h : Good s)
     (hx : ∀ u ∈ usedUris [r], u ∈ nsUris s) : Good (insertAt s i r) := by
